@@ -12,6 +12,7 @@ import (
 	"go/token"
 	"os"
 	"path/filepath"
+	"regexp"
 	"sort"
 	"strconv"
 	"strings"
@@ -47,6 +48,30 @@ type Item struct {
 		Field string `json:"field"`
 		Nth   int    `json:"nth"`
 	} `json:"assign_ints"`
+	// --- C++ sources (kinds added for C31; see cppItem at the end of this file) ---
+	// "lang": "cpp" makes the item a C++ item: the file is NOT parsed as Go.  Its text is either the file itself or,
+	// with "embedded_key", the raw string literal assigned to m["<key>"] inside the Go file (the copy of the C++
+	// runtime that tlgen emits: internal/tlcodegen/helpers_cpp_generated.go).
+	Lang        string `json:"lang"`
+	EmbeddedKey string `json:"embedded_key"`
+	// `constexpr <type> NAME = <integer literal>;` or `#define NAME <integer literal>`
+	CppConsts []string `json:"cpp_consts"`
+	// integer literal captured by group 1 of a regex applied to the body of a named C++ function
+	// (`<ret> <func>(...) ... { body }`, brace matched).  All matches must carry the same literal and there must be
+	// exactly "count" of them (default: at least one).
+	CppFuncLits []struct {
+		Name  string `json:"name"`
+		Func  string `json:"func"`
+		Regex string `json:"regex"`
+		Count int    `json:"count"`
+	} `json:"cpp_func_literals"`
+	// comparison operator captured by group 1 of a regex applied to the body of a named C++ function, emitted as a
+	// code: "<" 0, "<=" 1, ">" 2, ">=" 3, "==" 4, "!=" 5 (the model applies it with CppModel.cmp_op).  Exactly one match.
+	CppFuncOps []struct {
+		Name  string `json:"name"`
+		Func  string `json:"func"`
+		Regex string `json:"regex"`
+	} `json:"cpp_func_ops"`
 }
 
 // methodInt finds `func (… recv) method() … { return X }` and evaluates X.
@@ -238,6 +263,12 @@ func main() {
 	sb.WriteString("From Coq Require Import List NArith Bool.\nImport ListNotations.\nOpen Scope N_scope.\n\n")
 	fail := false
 	for _, it := range items {
+		if it.Lang == "cpp" {
+			if !cppItem(repo, it, &sb) {
+				fail = true
+			}
+			continue
+		}
 		fset := token.NewFileSet()
 		f, err := parser.ParseFile(fset, filepath.Join(repo, it.File), nil, 0)
 		if err != nil {
@@ -429,4 +460,213 @@ func main() {
 			panic(err)
 		}
 	}
+}
+
+// ----------------------------------------------------------------------------------------------
+// C++ items (kinds "cpp_consts", "cpp_func_literals").  No C++ is executed or compiled: constants
+// are extracted textually, and the extraction fails loudly when the expected shape is not found.
+
+// cppText returns the C++ text of the item: the file itself, or the raw string assigned to
+// m["<EmbeddedKey>"] in a Go file.
+func cppText(repo string, it Item) (string, error) {
+	path := filepath.Join(repo, it.File)
+	if it.EmbeddedKey == "" {
+		raw, err := os.ReadFile(path)
+		return string(raw), err
+	}
+	fset := token.NewFileSet()
+	f, err := parser.ParseFile(fset, path, nil, 0)
+	if err != nil {
+		return "", err
+	}
+	var text string
+	n := 0
+	ast.Inspect(f, func(nd ast.Node) bool {
+		as, ok := nd.(*ast.AssignStmt)
+		if !ok || len(as.Lhs) != 1 || len(as.Rhs) != 1 {
+			return true
+		}
+		ix, ok := as.Lhs[0].(*ast.IndexExpr)
+		if !ok {
+			return true
+		}
+		k, ok := ix.Index.(*ast.BasicLit)
+		if !ok || k.Kind != token.STRING {
+			return true
+		}
+		ks, err := strconv.Unquote(k.Value)
+		if err != nil || ks != it.EmbeddedKey {
+			return true
+		}
+		v, ok := as.Rhs[0].(*ast.BasicLit)
+		if !ok || v.Kind != token.STRING {
+			return true
+		}
+		vs, err := strconv.Unquote(v.Value)
+		if err != nil {
+			return true
+		}
+		text = vs
+		n++
+		return true
+	})
+	if n != 1 {
+		return "", fmt.Errorf("%d assignments to [%q] in %s (want exactly 1)", n, it.EmbeddedKey, it.File)
+	}
+	return text, nil
+}
+
+var cppIntRe = regexp.MustCompile(`^(0[xX][0-9a-fA-F']+|[0-9][0-9']*)([uUlL]*)$`)
+
+// cppInt parses a C++ integer literal (decimal / hex, digit separators, u/l suffixes).
+func cppInt(lit string) (constant.Value, bool) {
+	m := cppIntRe.FindStringSubmatch(strings.TrimSpace(lit))
+	if m == nil {
+		return nil, false
+	}
+	d := strings.ReplaceAll(m[1], "'", "")
+	if len(d) > 1 && d[0] == '0' && d[1] != 'x' && d[1] != 'X' { // octal: not used by the runtime, refuse
+		return nil, false
+	}
+	v := constant.MakeFromLiteral(d, token.INT, 0)
+	if v.Kind() != constant.Int {
+		return nil, false
+	}
+	return v, true
+}
+
+// cppFuncBody returns the brace-matched body of the definition of `name` (e.g. "tl_istream::string_read"),
+// comments stripped.  Exactly one definition must exist.
+func cppFuncBody(text, name string) (string, error) {
+	text = regexp.MustCompile(`(?s)/\*.*?\*/`).ReplaceAllString(text, " ")
+	text = regexp.MustCompile(`//[^\n]*`).ReplaceAllString(text, " ")
+	re := regexp.MustCompile(`(^|[^A-Za-z0-9_:])` + regexp.QuoteMeta(name) + `\s*\([^;{}]*\)[^;{}]*\{`)
+	locs := re.FindAllStringIndex(text, -1)
+	if len(locs) != 1 {
+		return "", fmt.Errorf("%d definitions of %s (want exactly 1)", len(locs), name)
+	}
+	start := locs[0][1]
+	depth := 1
+	for i := start; i < len(text); i++ {
+		switch text[i] {
+		case '{':
+			depth++
+		case '}':
+			depth--
+			if depth == 0 {
+				return text[start:i], nil
+			}
+		}
+	}
+	return "", fmt.Errorf("unbalanced braces in %s", name)
+}
+
+// constants extracted by "cpp_consts" so far (Coq name -> value): a "cpp_func_literals" capture may name one
+var cppKnown = map[string]constant.Value{}
+
+func cppItem(repo string, it Item, sb *strings.Builder) bool {
+	ok := true
+	text, err := cppText(repo, it)
+	where := it.File
+	if it.EmbeddedKey != "" {
+		where += " [" + it.EmbeddedKey + "]"
+	}
+	if err != nil {
+		fmt.Fprintf(os.Stderr, "genconsts: %s: %v\n", where, err)
+		return false
+	}
+	sb.WriteString(fmt.Sprintf("(* %s *)\n", where))
+	for _, name := range it.CppConsts {
+		re := regexp.MustCompile(`(?m)(?:constexpr\s+[A-Za-z0-9_:<> ]+?\s+|^\s*#\s*define\s+)` + regexp.QuoteMeta(name) + `\s*=?\s*([0-9a-fA-FxXuUlL']+)\s*;?\s*$`)
+		ms := re.FindAllStringSubmatch(text, -1)
+		if len(ms) != 1 {
+			fmt.Fprintf(os.Stderr, "genconsts: C++ constant %s: %d definitions in %s (want exactly 1)\n", name, len(ms), where)
+			ok = false
+			continue
+		}
+		v, good := cppInt(ms[0][1])
+		if !good {
+			fmt.Fprintf(os.Stderr, "genconsts: C++ constant %s in %s: unsupported literal %q\n", name, where, ms[0][1])
+			ok = false
+			continue
+		}
+		sb.WriteString(fmt.Sprintf("Definition %s : N := %s.\n", coqIdent(it.Prefix, name), v.ExactString()))
+		cppKnown[coqIdent(it.Prefix, name)] = v
+	}
+	for _, fl := range it.CppFuncLits {
+		body, err := cppFuncBody(text, fl.Func)
+		if err != nil {
+			fmt.Fprintf(os.Stderr, "genconsts: C++ literal %s: %v in %s\n", fl.Name, err, where)
+			ok = false
+			continue
+		}
+		re, err := regexp.Compile(fl.Regex)
+		if err != nil || re.NumSubexp() < 1 {
+			fmt.Fprintf(os.Stderr, "genconsts: C++ literal %s: bad regex %q\n", fl.Name, fl.Regex)
+			ok = false
+			continue
+		}
+		ms := re.FindAllStringSubmatch(body, -1)
+		if len(ms) == 0 || (fl.Count > 0 && len(ms) != fl.Count) {
+			fmt.Fprintf(os.Stderr, "genconsts: C++ literal %s: %d matches of %q in %s of %s (want %d)\n", fl.Name, len(ms), fl.Regex, fl.Func, where, fl.Count)
+			ok = false
+			continue
+		}
+		var val constant.Value
+		good := true
+		for _, m := range ms {
+			for i := 2; i < len(m) && m[1] == ""; i++ { // alternatives: the first non-empty group counts
+				m[1] = m[i]
+			}
+			v, g := cppInt(m[1])
+			if !g { // a named constant extracted earlier in this spec with the same prefix (basictl::TL_UINT32_SIZE)
+				id := m[1]
+				if i := strings.LastIndex(id, "::"); i >= 0 {
+					id = id[i+2:]
+				}
+				v, g = cppKnown[coqIdent(it.Prefix, id)]
+			}
+			if !g || (val != nil && !constant.Compare(val, token.EQL, v)) {
+				good = false
+				break
+			}
+			val = v
+		}
+		if !good {
+			fmt.Fprintf(os.Stderr, "genconsts: C++ literal %s: matches of %q in %s of %s are not one integer literal: %v\n", fl.Name, fl.Regex, fl.Func, where, ms)
+			ok = false
+			continue
+		}
+		sb.WriteString(fmt.Sprintf("Definition %s : N := %s.\n", coqIdent(it.Prefix, fl.Name), val.ExactString()))
+	}
+	opCode := map[string]int{"<": 0, "<=": 1, ">": 2, ">=": 3, "==": 4, "!=": 5}
+	for _, fo := range it.CppFuncOps {
+		body, err := cppFuncBody(text, fo.Func)
+		if err != nil {
+			fmt.Fprintf(os.Stderr, "genconsts: C++ operator %s: %v in %s\n", fo.Name, err, where)
+			ok = false
+			continue
+		}
+		re, err := regexp.Compile(fo.Regex)
+		if err != nil || re.NumSubexp() < 1 {
+			fmt.Fprintf(os.Stderr, "genconsts: C++ operator %s: bad regex %q\n", fo.Name, fo.Regex)
+			ok = false
+			continue
+		}
+		ms := re.FindAllStringSubmatch(body, -1)
+		if len(ms) != 1 {
+			fmt.Fprintf(os.Stderr, "genconsts: C++ operator %s: %d matches of %q in %s of %s (want exactly 1)\n", fo.Name, len(ms), fo.Regex, fo.Func, where)
+			ok = false
+			continue
+		}
+		code, known := opCode[ms[0][1]]
+		if !known {
+			fmt.Fprintf(os.Stderr, "genconsts: C++ operator %s: %q is not a comparison operator (%s of %s)\n", fo.Name, ms[0][1], fo.Func, where)
+			ok = false
+			continue
+		}
+		sb.WriteString(fmt.Sprintf("Definition %s : N := %d. (* %s *)\n", coqIdent(it.Prefix, fo.Name), code, ms[0][1]))
+	}
+	sb.WriteString("\n")
+	return ok
 }
